@@ -27,13 +27,13 @@ func init() {
 }
 
 var hashSinks = map[string]bool{
-	"github.com/cespare/xxhash/v2.Sum64":            true,
-	"github.com/cespare/xxhash/v2.Sum64String":      true,
-	"(*github.com/cespare/xxhash/v2.Digest).Write":  true,
+	"github.com/cespare/xxhash/v2.Sum64":                 true,
+	"github.com/cespare/xxhash/v2.Sum64String":           true,
+	"(*github.com/cespare/xxhash/v2.Digest).Write":       true,
 	"(*github.com/cespare/xxhash/v2.Digest).WriteString": true,
-	"(hash.Hash).Write":   true,
-	"(hash.Hash64).Write": true,
-	"(io.Writer).Write":   false,
+	"(hash.Hash).Write":                                  true,
+	"(hash.Hash64).Write":                                true,
+	"(io.Writer).Write":                                  false,
 }
 
 var encoders = map[string]bool{
@@ -411,7 +411,11 @@ func c03Keyhash(c *Ctx) {
 			continue
 		}
 		site := c.w.pos(fn.Pos())
-		srcs := childKeyCalls(c, fn)
+		helpers := c.scope(fn, 2)
+		var srcs []*ssa.Call
+		for _, h := range helpers {
+			srcs = append(srcs, childKeyCalls(c, h)...)
+		}
 		if len(srcs) == 0 {
 			c.r.bad(rule, name, "the key of an expression with operands does not use the operands' keys at all", []string{site})
 			continue
@@ -419,6 +423,9 @@ func c03Keyhash(c *Ctx) {
 		t := newTaint(c, true)
 		for _, s := range srcs {
 			t.tainted[s] = true
+		}
+		for _, h := range helpers {
+			t.funcs[h] = true
 		}
 		t.run(fn)
 		bad := false
